@@ -511,7 +511,13 @@ func RunW2(opt *W2Opt, plan, sched *simrt.Source, trace bool) *RunOut {
 		}
 		waiterExtra = newCall(199, []int{MExecute, MConcurrent, MMix, MPoolEMMulti})
 		waiterRound.Waiters = []int{waiterExtra.Idx}
-		if opt.Flood && w.Max <= 5 && g.Pct(3) {
+		floodOK := true
+		for _, r := range rules {
+			if r.Has(SecConc) {
+				floodOK = false // hundreds of requests each fanning out a conc block would outgrow the task table
+			}
+		}
+		if opt.Flood && w.Max <= 5 && floodOK && g.Pct(3) {
 			// "any number of concurrent requests": hundreds of them waiting while every instance is busy
 			waiterRound.Staged = false
 			waiterRound.K = 2
@@ -545,6 +551,9 @@ func RunW2(opt *W2Opt, plan, sched *simrt.Source, trace bool) *RunOut {
 	}
 	w.Rounds = ct.rounds
 	limitEndlessLoops(sc, &cfg)
+	if len(rules) > 8 && cfg.StepCap < 3000000 {
+		cfg.StepCap = 3000000 // forty rules with conc blocks in a pool are a lot of honest steps
+	}
 	o.Describe = func() []string {
 		out := []string{fmt.Sprintf("config: strategy=%d stick=%d‰ shuffleMaps=%v psites=%d‰ stall=%d; pool min=%d max=%d execModel=%d", cfg.Strategy, cfg.StickPermil, cfg.ShuffleMaps, cfg.PProb, cfg.StallSteps, w.Min, w.Max, em)}
 		for _, r := range rules {
